@@ -152,6 +152,8 @@ pub struct PairState {
     pub done: [bool; 2],
     pub established: [bool; 2],
     pub peer_close_seen: [Option<String>; 2],
+    /// the connection was lost for protocol-level reasons before any close was initiated
+    pub lost_early: bool,
 }
 
 /// Flags from which a stale registration is classified into a history class.
